@@ -273,6 +273,7 @@ def _worker_chunk_inner(args):
     done = 0
     steps = 0
     first_digests = []
+    history = _WORKER.setdefault("history", [])
     for idx in range(lo, hi):
         if time.time() > deadline:
             break
@@ -302,10 +303,15 @@ def _worker_chunk_inner(args):
             first_digests.append((idx, res["digest"]))
         if res["violation"] is not None:
             if len(violations) < 4:
-                violations.append({"index": idx, "seed": seed, "plan": plan, "violation": res["violation"]})
+                # the indices this worker process executed before: process-global state of the library (memo
+                # tables, caches) is part of the history, so a violation that does not replay on its own is
+                # replayed as a session = earlier plans of the same process followed by the failing plan
+                violations.append({"index": idx, "seed": seed, "plan": plan, "violation": res["violation"],
+                                   "history": list(history[-3000:])})
             agg["violating_runs"] += 1
         elif len(samples) < 3 and res["nontrivial"]:
             samples.append({"index": idx, "seed": seed, "plan": plan, "events": res["events"][:60]})
+        history.append(idx)
     return {"done": done, "steps": steps, "stats": dict(agg), "known_hits": dict(known_hits),
             "nontrivial": sorted(nontrivial), "reach": sorted(reach), "violations": violations,
             "samples": samples, "first_digests": first_digests}
@@ -364,21 +370,107 @@ def merge(results):
 # --------------------------------------------------------------------------
 # check driver
 # --------------------------------------------------------------------------
+def execute_session(engine, plans, known=None):
+    """Plans executed one after the other in this process (process-global library state carries over, exactly as
+    in the worker process where the violation was seen).  Only the last plan's verdict counts: earlier plans are
+    history, and a violation inside one of them just ends that plan early, as it did in the worker."""
+    if known is None:
+        known = load_known()
+    res = None
+    for plan in plans:
+        res = execute(engine, plan, known)
+    return res
+
+
 def replay_file(engine, path):
     with open(path) as f:
         doc = json.load(f)
-    plan = doc["plan"]
-    res = execute(engine, plan, load_known())
+    if doc.get("session"):
+        return doc, execute_session(engine, doc["session"], load_known())
+    res = execute(engine, doc["plan"], load_known())
     return doc, res
 
 
-def write_replay(prop, seed, plan, violation, tries, original_len):
+def fresh_replay(prop, doc):
+    """Replay a plan or a session in a fresh interpreter; returns the violation dict or None."""
+    os.makedirs(REPLAY_DIR, exist_ok=True)
+    tmp = os.path.join(REPLAY_DIR, "tmp-%d-%d.json" % (os.getpid(), int(time.time() * 1e6) % 10 ** 9))
+    with open(tmp, "w") as f:
+        json.dump(doc, f)
+    try:
+        p = subprocess.run([os.path.join(VERIF, "check"), prop, "--replay", tmp, "--json"], capture_output=True, text=True, timeout=900)
+    finally:
+        try:
+            os.remove(tmp)
+        except OSError:
+            pass
+    for line in p.stdout.splitlines():
+        if line.startswith("RESULT "):
+            return json.loads(line[7:])
+    raise HarnessError("fresh replay gave no result: %s" % (p.stdout + p.stderr)[-800:])
+
+
+def shrink_session(prop, plans, target, budget_s=240.0):
+    """ddmin over the prefix plans of a session (the failing plan stays last); every attempt runs in a fresh process."""
+    t0 = time.time()
+    tries = [0]
+
+    def fails(cand):
+        tries[0] += 1
+        v = fresh_replay(prop, {"session": cand})
+        return v is not None and v.get("oracle") == target["oracle"] and v.get("klass") == target["klass"] \
+            and "session_index" not in v
+
+    prefix, last = list(plans[:-1]), plans[-1]
+    n = 2
+    while prefix and time.time() - t0 < budget_s:
+        size = max(1, len(prefix) // n)
+        removed = False
+        for start in range(0, len(prefix), size):
+            cand = prefix[:start] + prefix[start + size:]
+            if fails(cand + [last]):
+                prefix = cand
+                n = max(n - 1, 2)
+                removed = True
+                break
+            if time.time() - t0 > budget_s:
+                break
+        if not removed:
+            if size == 1:
+                break
+            n = min(len(prefix), n * 2)
+    # then the ops inside each remaining plan (single deletions, cheapest first)
+    for k in list(range(len(prefix))) + [-1]:
+        cur = prefix + [last]
+        plan = cur[k]
+        i = 0
+        while i < len(plan["ops"]) and len(plan["ops"]) > 1 and time.time() - t0 < budget_s * 1.5:
+            cand_plan = dict(plan, ops=plan["ops"][:i] + plan["ops"][i + 1:])
+            cand = list(cur)
+            cand[k] = cand_plan
+            if fails(cand):
+                plan = cand_plan
+                cur = cand
+            else:
+                i += 1
+        prefix, last = cur[:-1], cur[-1]
+    return prefix + [last], tries[0]
+
+
+def write_replay(prop, seed, plan, violation, tries, original_len, session=None, note=None):
     os.makedirs(REPLAY_DIR, exist_ok=True)
     path = os.path.join(REPLAY_DIR, "%s-%d.json" % (prop, seed))
+    doc = {"property": prop, "seed": seed, "violation": violation, "plan": plan,
+           "shrink": {"attempts": tries, "ops_before": original_len, "ops_after": len(plan["ops"])}}
+    if session is not None:
+        doc["session"] = session
+        doc["shrink"]["session_plans"] = len(session)
+        doc["note"] = ("the violation needs process-global history: replay executes all plans of 'session' in order in one "
+                       "fresh process; the violation occurs in the last one")
+    if note:
+        doc["note"] = (doc.get("note", "") + " " + note).strip()
     with open(path, "w") as f:
-        json.dump({"property": prop, "seed": seed, "violation": violation, "plan": plan,
-                   "shrink": {"attempts": tries, "ops_before": original_len, "ops_after": len(plan["ops"])}},
-                  f, indent=1)
+        json.dump(doc, f, indent=1)
         f.write("\n")
     return path
 
@@ -434,18 +526,36 @@ def check(prop, engine_name, tier, base_seed, budgets, describe):
         if sig in seen_sigs or len(reported) >= 3:
             continue
         seen_sigs.add(sig)
-        small, tries = shrink(eng, v["plan"], v["violation"], known)
-        res = execute(eng, small, known)
-        if not same_failure(res, v["violation"]):
-            raise HarnessError("shrunk plan does not fail on re-execution (nondeterminism) seed=%d" % v["seed"])
-        path = write_replay(prop, v["seed"], small, res["violation"], tries, len(v["plan"]["ops"]))
+        target = v["violation"]
+
+        def matches(x):
+            return x is not None and x.get("oracle") == target["oracle"] and x.get("klass") == target["klass"] and "session_index" not in x
+
+        path = None
+        if matches(fresh_replay(prop, {"plan": v["plan"]})):
+            # the plan fails on its own in a fresh process: shrink in-process, confirm the result in a fresh one
+            small, tries = shrink(eng, v["plan"], target, known)
+            final = fresh_replay(prop, {"plan": small})
+            if not matches(final):
+                small, tries, final = v["plan"], 0, fresh_replay(prop, {"plan": v["plan"]})
+            path = write_replay(prop, v["seed"], small, final, tries, len(v["plan"]["ops"]))
+        else:
+            # needs the history of the worker process it occurred in
+            plans = [eng.gen_plan(prop, run_seed(base_seed, prop, i), tier) for i in v["history"]] + [v["plan"]]
+            if not matches(fresh_replay(prop, {"session": plans})):
+                raise HarnessError("violation at run index %d (seed %d, oracle %s) replays neither alone nor with the history of its "
+                                   "worker process: the harness is not deterministic" % (v["index"], v["seed"], target["oracle"]))
+            small, tries = shrink_session(prop, plans, target)
+            final = fresh_replay(prop, {"session": small})
+            if not matches(final):
+                small, final = plans, fresh_replay(prop, {"session": plans})
+            path = write_replay(prop, v["seed"], small[-1], final, tries, len(v["plan"]["ops"]), session=small)
         ok = confirm_in_fresh_process(prop, path)
         if not ok:
             raise HarnessError("replay %s did not reproduce in a fresh process" % path)
         print("VIOLATION property=%s replay=%s" % (prop, path))
-        print("  oracle=%s class=%s step=%s detail=%s" % (res["violation"]["oracle"], res["violation"]["klass"],
-                                                       res["violation"]["step"], res["violation"]["detail"]))
-        reported.append({"replay": path, "violation": res["violation"]})
+        print("  oracle=%s class=%s step=%s detail=%s" % (final["oracle"], final["klass"], final["step"], final["detail"]))
+        reported.append({"replay": path, "violation": final})
         exit_code = 1
     for idx, hits in sorted(m["known_hits"].items()):
         k = known[idx]
@@ -492,12 +602,17 @@ def check(prop, engine_name, tier, base_seed, budgets, describe):
     return exit_code
 
 
-def main_replay(prop, engine_name, path):
+def main_replay(prop, engine_name, path, as_json=False):
     from . import engines
     eng = engines.get(engine_name)
     eng.setup()
     doc, res = replay_file(eng, path)
     v = res["violation"]
+    if as_json:
+        print("RESULT " + json.dumps(v))
+        return 0 if v is None else 1
+    if doc.get("session"):
+        print("  session of %d plans executed in order; events of the last executed plan follow" % len(doc["session"]))
     for e in res["events"]:
         print("  event", json.dumps(e, default=str))
     if v is None:
